@@ -29,11 +29,13 @@ theorem eval_env_unchanged (c : Cfg) (hq : c.q.callCopies = true) (n : Nat) (e :
     (v : Val) (ρ' : Env) (h' : Heap) (he : eval c n e ρ h = .ok (v, ρ', h')) : ρ' = ρ :=
   (eval_frame c n e ρ h v ρ' h' he).1 hq
 
-/-- The caller's xs:dateTime objects are not modified (`tzinfo` included).  Needs only the F05b
-repair (`operandCopied`). -/
-theorem eval_heap_unchanged (c : Cfg) (hq : c.q.operandCopied = true) (n : Nat) (e : Expr) (ρ : Env) (h : Heap)
+/-- The caller's xs:dateTime objects are not modified (`tzinfo` included) — neither by arithmetic
+with the implicit timezone (`get_operands`, needs the F05b repair `operandCopied`) nor by
+`fn:adjust-dateTime-to-timezone` (`adjust_datetime` works on `copy(item)`: `adjustCopied`). -/
+theorem eval_heap_unchanged (c : Cfg) (hq : c.q.operandCopied = true) (hq' : c.q.adjustCopied = true)
+    (n : Nat) (e : Expr) (ρ : Env) (h : Heap)
     (v : Val) (ρ' : Env) (h' : Heap) (he : eval c n e ρ h = .ok (v, ρ', h')) : h' = h :=
-  (eval_frame c n e ρ h v ρ' h' he).2 hq
+  (eval_frame c n e ρ h v ρ' h' he).2 ((Quirks.heapSafe_iff _).2 ⟨hq, hq'⟩)
 
 /-- what a fresh evaluation of step `s` shows, on the objects as the caller created them -/
 def fresh (q : Quirks) (n : Nat) (e : Expr) (h : Heap) (s : Step) : Out :=
@@ -42,7 +44,7 @@ def fresh (q : Quirks) (n : Nat) (e : Expr) (h : Heap) (s : Step) : Out :=
 /-- REPEATABLE: in every history of evaluations of one expression — any number of steps, any
 variables and implicit timezones, in any order — each step returns what a fresh evaluation of
 that step returns, and the caller's objects are the same at the end. -/
-theorem repeatable (q : Quirks) (hq : q.operandCopied = true) (n : Nat) (e : Expr) :
+theorem repeatable (q : Quirks) (hq : q.heapSafe = true) (n : Nat) (e : Expr) :
     ∀ (steps : List Step) (h : Heap),
       runHistory q n e steps h = (steps.map (fresh q n e h), h) := by
   intro steps
@@ -53,14 +55,14 @@ theorem repeatable (q : Quirks) (hq : q.operandCopied = true) (n : Nat) (e : Exp
     unfold runHistory
     split
     · rename_i v ρ' h' he
-      have hh : h' = h := eval_heap_unchanged ⟨q, s.tz⟩ hq n e s.ρ h v ρ' h' he
+      have hh : h' = h := (eval_frame ⟨q, s.tz⟩ n e s.ρ h v ρ' h' he).2 hq
       subst hh
       simp [ih, fresh, he, outOf]
     · rename_i er he
       simp [ih, fresh, he, outOf]
 
 /-- the order of the steps does not matter: step `s` gives the same answer wherever it stands -/
-theorem history_order_irrelevant (q : Quirks) (hq : q.operandCopied = true) (n : Nat) (e : Expr)
+theorem history_order_irrelevant (q : Quirks) (hq : q.heapSafe = true) (n : Nat) (e : Expr)
     (pre pre' post post' : List Step) (s : Step) (h : Heap) :
     (runHistory q n e (pre ++ s :: post) h).1[pre.length]? =
     (runHistory q n e (pre' ++ s :: post') h).1[pre'.length]? := by
@@ -105,10 +107,10 @@ theorem eval_fuel_independent (c : Cfg) (n m : Nat) (e : Expr) (ρ : Env) (h : H
 caller variables, the model returns exactly what the lexical specification returns — the same error,
 or the same observable items — and hands the caller's dict and objects back unchanged. -/
 theorem eval_eq_sem (c : Cfg) (hq1 : c.q.callCopies = true) (hq2 : c.q.operandCopied = true)
-    (hq3 : c.q.calleeLexical = true)
+    (hq4 : c.q.adjustCopied = true) (hq3 : c.q.calleeLexical = true)
     (n : Nat) (e : Expr) (ρ : Env) (h : Heap) (hg : groundEnv ρ = true) :
     outOf (eval c n e ρ h) = semOut c.tz h n e ρ := by
-  have hr := eval_sem_related c hq1 hq2 hq3 h n e true (dom ρ) ρ ρ (ws_lexical e (dom ρ)) (Inv.top hg)
+  have hr := eval_sem_related c hq1 hq2 hq4 hq3 h n e true (dom ρ) ρ ρ (ws_lexical e (dom ρ)) (Inv.top hg)
   unfold semOut
   rcases hr.cases with ⟨er, h1, h2⟩ | ⟨v1, v2, h1, h2, hv⟩
   · rw [h1, h2]; rfl
@@ -122,7 +124,7 @@ theorem history_eq_sem (n : Nat) (e : Expr) (steps : List Step) (h : Heap)
   congr 1
   apply List.map_congr_left
   intro s hm
-  exact eval_eq_sem ⟨.lexical, s.tz⟩ rfl rfl rfl n e s.ρ h (hs s hm)
+  exact eval_eq_sem ⟨.lexical, s.tz⟩ rfl rfl rfl rfl n e s.ρ h (hs s hm)
 
 /-- PARTIAL (finding F05c, tree WITHOUT its repair): on every program whose inline function bodies are closed in the
 scope where they are DEFINED (`WS false true (dom ρ) e`; references outside function bodies are not
@@ -131,9 +133,9 @@ the model returns exactly what the lexical specification returns: the same error
 observable items — and hands the caller's dict and objects back unchanged.
 The full statement (no `WS` hypothesis) is false for the Python code: `f05c_dynamic_scope`. -/
 theorem eval_eq_sem_partial (c : Cfg) (hq1 : c.q.callCopies = true) (hq2 : c.q.operandCopied = true)
-    (n : Nat) (e : Expr) (ρ : Env) (h : Heap) (hg : groundEnv ρ = true) (hw : WS c.q.calleeLexical true (dom ρ) e = true) :
+    (hq4 : c.q.adjustCopied = true) (n : Nat) (e : Expr) (ρ : Env) (h : Heap) (hg : groundEnv ρ = true) (hw : WS c.q.calleeLexical true (dom ρ) e = true) :
     outOf (eval c n e ρ h) = semOut c.tz h n e ρ := by
-  have hr := eval_sem_related c hq1 hq2 rfl h n e true (dom ρ) ρ ρ hw (Inv.top hg)
+  have hr := eval_sem_related c hq1 hq2 hq4 rfl h n e true (dom ρ) ρ ρ hw (Inv.top hg)
   unfold semOut
   rcases hr.cases with ⟨er, h1, h2⟩ | ⟨v1, v2, h1, h2, hv⟩
   · rw [h1, h2]; rfl
@@ -144,16 +146,16 @@ theorem eval_eq_sem_partial (c : Cfg) (hq1 : c.q.callCopies = true) (hq2 : c.q.o
 no inline function expression — the model equals the lexical specification, no hypothesis on
 scoping at all. -/
 theorem eval_eq_sem_binders (c : Cfg) (hq1 : c.q.callCopies = true) (hq2 : c.q.operandCopied = true)
-    (n : Nat) (e : Expr) (ρ : Env) (h : Heap) (hg : groundEnv ρ = true) (hf : noFn e = true) :
+    (hq4 : c.q.adjustCopied = true) (n : Nat) (e : Expr) (ρ : Env) (h : Heap) (hg : groundEnv ρ = true) (hf : noFn e = true) :
     outOf (eval c n e ρ h) = semOut c.tz h n e ρ :=
-  eval_eq_sem_partial c hq1 hq2 n e ρ h hg (ws_of_noFn _ e (dom ρ) hf)
+  eval_eq_sem_partial c hq1 hq2 hq4 n e ρ h hg (ws_of_noFn _ e (dom ρ) hf)
 
 /-- the same, keeping the function items: results are related by `VRel` (equal atomic items;
 function items with the same parameters and body whose closures agree on the scope of the body) -/
 theorem eval_rel_sem_partial (c : Cfg) (hq1 : c.q.callCopies = true) (hq2 : c.q.operandCopied = true)
-    (n : Nat) (e : Expr) (ρ : Env) (h : Heap) (hg : groundEnv ρ = true) (hw : WS c.q.calleeLexical true (dom ρ) e = true) :
+    (hq4 : c.q.adjustCopied = true) (n : Nat) (e : Expr) (ρ : Env) (h : Heap) (hg : groundEnv ρ = true) (hw : WS c.q.calleeLexical true (dom ρ) e = true) :
     RRel c.q.calleeLexical ρ h (eval c n e ρ h) (sem c.tz h n e ρ) :=
-  eval_sem_related c hq1 hq2 rfl h n e true (dom ρ) ρ ρ hw (Inv.top hg)
+  eval_sem_related c hq1 hq2 hq4 rfl h n e true (dom ρ) ρ ρ hw (Inv.top hg)
 
 /-- REPEATABLE, against the specification: every step of every history of one expression returns
 what the lexical semantics assigns to that step's variables and implicit timezone on the
@@ -165,14 +167,14 @@ theorem history_eq_sem_partial (n : Nat) (e : Expr) (steps : List Step) (h : Hea
   congr 1
   apply List.map_congr_left
   intro s hm
-  exact eval_eq_sem_partial ⟨.fixed, s.tz⟩ rfl rfl n e s.ρ h (hs s hm).1 (hs s hm).2
+  exact eval_eq_sem_partial ⟨.fixed, s.tz⟩ rfl rfl rfl n e s.ρ h (hs s hm).1 (hs s hm).2
 
 /-- STATIC SCOPING IS SOUND: if every variable reference of `e` is statically bound
 (`WS false false (dom ρ) e`: by a binder or parameter around it, by the scope where the enclosing inline
 function is defined, or by a caller's variable), then no evaluation of `e` raises XPST0008 — neither
 in the lexical specification nor in the model of the Python code, at any depth bound. -/
 theorem well_scoped_never_unbound (c : Cfg) (hq1 : c.q.callCopies = true) (hq2 : c.q.operandCopied = true)
-    (n : Nat) (e : Expr) (ρ : Env) (h : Heap) (hg : groundEnv ρ = true) (hw : WS false false (dom ρ) e = true) :
+    (hq4 : c.q.adjustCopied = true) (n : Nat) (e : Expr) (ρ : Env) (h : Heap) (hg : groundEnv ρ = true) (hw : WS false false (dom ρ) e = true) :
     sem c.tz h n e ρ ≠ .error .unbound ∧ eval c n e ρ h ≠ .error .unbound := by
   have hi : ∀ lex, Inv lex none false (dom ρ) ρ ρ := by
     intro lex
@@ -185,7 +187,7 @@ theorem well_scoped_never_unbound (c : Cfg) (hq1 : c.q.callCopies = true) (hq2 :
     exact this rfl
   refine ⟨hs, ?_⟩
   intro hu
-  have hr := eval_sem_related c hq1 hq2 rfl h n e false (dom ρ) ρ ρ (by rw [ws_false_lex]; exact hw) (hi _)
+  have hr := eval_sem_related c hq1 hq2 hq4 rfl h n e false (dom ρ) ρ ρ (by rw [ws_false_lex]; exact hw) (hi _)
   rcases hr.cases with ⟨er, h1, h2⟩ | ⟨v1, v2, h1, _, _⟩
   · rw [h1] at hu; cases hu; exact hs h2
   · rw [h1] at hu; cases hu
@@ -232,6 +234,22 @@ theorem f05b_pinned_history :
       = ([.ok [.dur (-18000)], .ok [.dur (-18000)]], [(0, some 300)]) ∧
     runHistory .fixed 5 f05bWitness [⟨some 300, [(0, [.dtref 0])]⟩, ⟨some (-180), [(0, [.dtref 0])]⟩] [(0, none)]
       = ([.ok [.dur (-18000)], .ok [.dur 10800]], [(0, none)]) := by decide
+
+/-- `adjust-dateTime-to-timezone($d)` -/
+def adjustWitness : Expr := .adjust1 (.var 0)
+
+/-- the seeded change "`_item = item` in `adjust_datetime`" (`adjustCopied = false`): a history of two
+evaluations with implicit timezones +05:00 and −03:00 on the caller's `$d` (no timezone) writes
++05:00 into the caller's object and the second step answers with the stale +05:00 adjusted to
+−03:00; on the real trees the object is untouched and the second step gives −03:00 on the original
+local time.  So `adjustCopied` is necessary in `eval_heap_unchanged` and `repeatable`. -/
+theorem adjust_in_place_history :
+    runHistory ⟨true, true, false, false⟩ 5 adjustWitness
+        [⟨some 300, [(0, [.dtref 0])]⟩, ⟨some (-180), [(0, [.dtref 0])]⟩] [(0, none)]
+      = ([.ok [.dt 0 (some 300)], .ok [.dt (-28800) (some (-180))]], [(0, some 300)]) ∧
+    runHistory .fixed 5 adjustWitness
+        [⟨some 300, [(0, [.dtref 0])]⟩, ⟨some (-180), [(0, [.dtref 0])]⟩] [(0, none)]
+      = ([.ok [.dt 0 (some 300)], .ok [.dt 0 (some (-180))]], [(0, none)]) := by decide
 
 /-- TEST (literals): the hypotheses of `binder_not_visible_outside` are satisfiable —
 `(let $x := 1 return $x, $x)` with no `$x` in the caller's variables. -/
